@@ -78,5 +78,5 @@ def _try(f):
 
 def run(rep):
     tier = rep.tier
-    st = plans.run_plan(rep, "vf.checks.c06", tier, plans.standard(tier, thorough_cap=1500, families=None), safe_only=False, include_unsafe=True)
+    st = plans.run_plan(rep, "vf.checks.c06", tier, plans.standard(tier, thorough_cap=400, families=None), safe_only=False, include_unsafe=True)
     fill_evidence(rep, st)
